@@ -28,6 +28,9 @@ type c15P struct {
 	Via    string `json:"via"`     // "" = gossip delivery | "head" = learned through Syncer.Head() from the trusted getter
 	FailKind string `json:"fail_kind,omitempty"` // "" generic error | notfound (header.ErrNotFound once) | notfound-from (ErrNotFound from that call on)
 	Soft   bool   `json:"soft"`    // the header type reports its own rejections as SoftFailure (also adjacent ones)
+	// Redeliver: after a delivery during which the getter failed (once), the same candidate is delivered again
+	// with the getter healthy: the verdict must then be the one of a first delivery
+	Redeliver bool `json:"redeliver,omitempty"`
 }
 
 func TestC15(t *testing.T) {
@@ -68,6 +71,20 @@ func TestC15(t *testing.T) {
 					mon.Emit(r, "bifurcate", c15P{S: 10, D: d, R: R, Cand: "canonical", FailAt: k, FailKind: fk}, "bifurcate")
 				}
 				mon.Emit(r, "bifurcate", c15P{S: 10, D: d, R: R, Cand: vh.VForgedRightLink, FailAt: 1, FailKind: fk}, "bifurcate")
+			}
+		}
+	}
+	// getter outage during the first delivery, recovery, same head delivered again
+	for _, d := range []uint64{2, 3, 6, 13, 40} {
+		for _, R := range []uint64{1, 2, 4} {
+			if R >= d {
+				continue
+			}
+			for k := 0; k < 3; k++ {
+				for _, fk := range []string{"", "notfound"} {
+					mon.Emit(r, "bifurcate", c15P{S: 10, D: d, R: R, Cand: "canonical", FailAt: k, FailKind: fk, Redeliver: true}, "bifurcate")
+				}
+				mon.Emit(r, "bifurcate", c15P{S: 10, D: d, R: R, Cand: vh.VForgedRightLink, FailAt: k, Redeliver: true}, "bifurcate")
 			}
 		}
 	}
@@ -130,7 +147,15 @@ func c15Run(c *mon.Case, p c15P) {
 		failed := false
 		bound := int(p.D)*(bits.Len64(p.D)+2) + 2
 		runaway := false
+		base := 0
 		w.g.ByHeightFn = func(call int, height uint64) (H, error, bool) {
+			if base > 0 {
+				if call-base > bound+8 {
+					runaway = true
+					return nil, errGetterDown, true
+				}
+				return nil, nil, false
+			}
 			if call == p.FailAt || (p.FailKind == "notfound-from" && p.FailAt >= 0 && call > p.FailAt && call <= bound+8) {
 				failed = true
 				if p.FailKind != "" {
@@ -222,7 +247,7 @@ func c15Run(c *mon.Case, p c15P) {
 		default:
 			steps = "9+"
 		}
-		c.Class("d=%s R=%s cand=%s getterfail=%v%s via=%s soft=%v => %s steps=%s", bucket(p.D), bucket(p.R), p.Cand, failed, p.FailKind, p.Via, p.Soft, outcome, steps)
+		c.Class("d=%s R=%s cand=%s getterfail=%v%s via=%s soft=%v redeliver=%v => %s steps=%s", bucket(p.D), bucket(p.R), p.Cand, failed, p.FailKind, p.Via, p.Soft, p.Redeliver, outcome, steps)
 		shape := fmt.Sprintf("cand=%s/getterfail=%v", p.Cand, failed)
 		if p.FailKind != "" {
 			shape += "/" + p.FailKind
@@ -247,6 +272,27 @@ func c15Run(c *mon.Case, p c15P) {
 				c.Violation("search-outside-interval/"+shape, fmt.Sprintf("requested height %d outside [%d,%d)", gc.Height, p.S, p.S+p.D), nil)
 				break
 			}
+		}
+		if p.Redeliver && failed && p.Via == "" && p.FailKind != "notfound-from" && !c.Violated() {
+			base = len(w.g.Calls("byheight")) + 1
+			ctx, cancel := context.WithTimeout(context.Background(), time.Hour)
+			verr2 := w.sub.deliver(ctx, cand)
+			cancel()
+			calls2 := w.g.Calls("byheight")[base-1:]
+			c.Count("redeliveries", 1)
+			c.Count("bifurcation_getter_calls", len(calls2))
+			shape += "/redelivered"
+			if runaway || len(calls2) > bound {
+				c.Violation("search-exceeds-bound/"+shape, fmt.Sprintf("%d getter requests for distance %d on redelivery (bound %d)", len(calls2), p.D, bound), nil)
+			}
+			if (verr2 == nil) != canonical {
+				if verr2 == nil {
+					c.Violation("accepted-without-verifiable-path/"+shape, fmt.Sprintf("candidate %v accepted on redelivery (d=%d R=%d)", cand, p.D, p.R), nil)
+				} else {
+					c.Violation("refused-despite-verifiable-path/"+shape, fmt.Sprintf("canonical candidate, refused while the getter was failing, is refused again with a healthy getter: %v (d=%d R=%d, %d getter calls)", verr2, p.D, p.R, len(calls2)), nil)
+				}
+			}
+			verr = verr2
 		}
 		// what the Syncer now regards as head / sync target
 		hctx, hc := context.WithTimeout(context.Background(), time.Minute)
